@@ -216,6 +216,13 @@ def explore_symbolic(make_world, make_run, shape, *, seed=0, max_paths=10**9, de
                                               symbolic_run=info, native_run=c2[0]["info"]))
             else:
                 res["validated"] += 1
+        elif _strip(nat) != _strip(info) and c2:
+            # the run on real classes differs from the symbolic one AND breaks the property itself: code that behaves differently on real
+            # classes than on classes answering only through issubclass / isinstance (it reads __mro__, __bases__, __class__, ...) is wrong on
+            # the real ones -- a violation observed natively
+            res["violations"].append(dict(shape=shape, assignment=assignment, world=W2.describe(assignment) if hasattr(W2, "describe") else None,
+                                          realisation="abc.ABC.register (virtual subclasses)" if use_abc else "inheritance",
+                                          symbolic_run=info, native_run=c2[0]["info"], note="found by the validation replay on real classes"))
         elif _strip(nat) != _strip(info):
             res["harness_errors"].append(dict(shape=shape, assignment=assignment, symbolic_run=info, native_run=nat,
                                               error="stub divergence: native run observed something else"))
